@@ -7,13 +7,17 @@ Theorems about `CanopenModel/Sdo/BlockUp.lean` (model of `BlockUploadStream` + t
   corruption, reordering of what reaches the response queue): `crc_guard`,
   `single_bit_flip_detected`;
 * statements about the client composed with the conformant block-upload server of
-  `CanopenModel/Spec/BlockServer.lean`: `undisturbed`, `flipped_data_byte_errors`, `flipped_data_bit_errors`,
-  `wrong_crc_or_end_frame_errors`, and the closed counterexample `crc_blind_counterexample`.
-Helper lemmas: `CanopenProofs/Lemmas/BlockUp.lean`, `CanopenProofs/Lemmas/Crc.lean`.
+  `CanopenModel/Spec/BlockServer.lean`: `undisturbed`, `loss_never_returns_different_data`,
+  `single_loss_repaired`, `flipped_data_byte_errors`, `flipped_data_bit_errors`,
+  `wrong_crc_or_end_frame_errors`, and the closed counterexamples `crc_collision_counterexample`,
+  `crc_blind_counterexample`.
+Helper lemmas: `CanopenProofs/Lemmas/BlockUp.lean`, `BlockUpFlow.lean`, `BlockUpLoss.lean`,
+`CanopenProofs/Lemmas/Crc.lean`.
 -/
 import CanopenModel.Sdo.BlockUp
 import CanopenProofs.Lemmas.BlockUp
 import CanopenProofs.Lemmas.BlockUpFlow
+import CanopenProofs.Lemmas.BlockUpLoss
 
 namespace Canopen.C13
 open Canopen Canopen.Crc Canopen.Gen.SdoBlock Canopen.Sdo.BlockUp
@@ -219,24 +223,55 @@ theorem flipped_data_bit_errors (cfg : Cfg) (hx : cfg.crcXor = 0) (he : cfg.endB
   have h3 := xor_cancel (1 <<< j) 0 (cfg.data.getD (7 * i0 + k) 0) (by rw [Nat.xor_comm, this, Nat.xor_comm])
   exact h3
 
-/-! ## the clause that is false on the code as it is
+/-! ## loss (repaired code: after every retransmission request the client counts from 1 again,
+like the server) -/
+
+/-- **Whatever is lost, the data returned is the server's** — CRC negotiated or not.  Conformant
+    server, any value (1 ≤ length < 2^32), a channel that loses any set of the server's frames
+    (initiate response, segments of first transmissions and of repetitions, end response) and alters
+    none: if the upload returns normally, it returns exactly the server's value.  (After a lost
+    segment the client acknowledges the last segment it received in sequence; the server repeats
+    from the next one, numbering from 1; the client drops what is still queued of the old
+    sub-block and resumes with number 1.) -/
+theorem loss_never_returns_different_data (cfg : Cfg) (hx : cfg.crcXor = 0) (he : cfg.endB0 = none)
+    (h1 : 1 ≤ cfg.data.length) (h2 : cfg.data.length < 2 ^ 32) (chan : Nat → Bytes → Option Bytes)
+    (hloss : ∀ n f, chan n f = none ∨ chan n f = some f) (crcReq : Bool) (idx sub fuel : Nat) (v : Bytes)
+    (h : (blockUpload { cfg := cfg, chan := chan } fuel idx sub crcReq).2 = .ok v) : v = cfg.data :=
+  upload_loss_safe _ { cfg := cfg, chan := chan, g := trueG cfg, crcReq := crcReq, idx := idx, sub := sub }
+    (deliv_env _) hloss hx he h1 h2 fuel [] v h
+
+/-- **A single lost segment is repaired** (the analogue of C12 `single_loss_repaired`): conformant
+    server, any value, CRC requested / supported in any combination; the server's response number
+    `g` with 1 ≤ g ≤ number of segments — any one segment frame, first, middle or last of its
+    sub-block or of the value — is lost, everything else arrives: the upload completes and returns
+    exactly the server's value, with the same fuel as the undisturbed transfer. -/
+theorem single_loss_repaired (cfg : Cfg) (hx : cfg.crcXor = 0) (he : cfg.endB0 = none)
+    (h1 : 1 ≤ cfg.data.length) (h2 : cfg.data.length < 2 ^ 32) (g : Nat) (hg1 : 1 ≤ g) (hg : g ≤ nseg cfg)
+    (crcReq : Bool) (idx sub fuel : Nat) (hf : nseg cfg + 1 ≤ fuel) :
+    (blockUpload { cfg := cfg, chan := (fun n f => if n = g then none else some f) } fuel idx sub crcReq).2
+      = .ok cfg.data :=
+  upload_single_loss _ (lossPar cfg g crcReq idx sub) (deliv_env _) (lossOnly_lossPar cfg g crcReq idx sub)
+    hx he h1 h2 g hg1 hg (fun n f hn => lossPar_chan cfg g crcReq idx sub n f hn) fuel hf []
+
+/-! ## the clause that is false: corruption
 
 FULL STATEMENT (property text: "With CRC negotiated, any loss or corruption of segments … the call
 never returns data that differs from the server's value"):
 
-    theorem never_returns_different_data (cfg) (chan : any loss / corruption of segment frames)
+    theorem never_returns_different_data (cfg) (chan : any loss / corruption of the server's frames)
         (h : (blockUpload { cfg := cfg, chan := chan } fuel idx sub true).2 = .ok v) (hcap : cfg.crcCapable = true) :
         v = cfg.data
 
-It is FALSE of the code (and no 16-bit checksum can make it true for corruption; for *loss* it
-would hold if the client re-synchronised correctly): see `crc_blind_counterexample`.  What holds,
-and is proved for every peer and every channel, is the `_partial` version below: the returned
-value has the CRC-16 the server announced — hence never differs from the server's value in a
-single byte (`single_bit_flip_detected`).  Missing for the full statement: after a retransmission
-request `BlockUploadStream` keeps its sequence counter while a conformant server renumbers from 1
-(the client resumes at the wrong segment), and it never compares the number of bytes received with
-the size the server announced; a value whose CRC register stays 0 (all zero bytes) therefore
-passes the only remaining guard with segments missing. -/
+For LOSS it is now a theorem, with or without CRC (`loss_never_returns_different_data`).  For
+CORRUPTION it is false and no client can make it true: the only guard is a 16-bit checksum.
+`crc_collision_counterexample` alters three bytes of one segment by the CRC polynomial — the
+checksum is unchanged and the altered value is returned.  What holds for corruption, and is proved
+for every peer and every channel, is the `_partial` version: the returned value has the CRC-16 the
+server announced — hence never differs from the server's value in a single byte
+(`single_bit_flip_detected`, `flipped_data_byte_errors`).  One weakness remains on the client's
+side (`crc_blind_counterexample`): it never compares the number of bytes received with the size the
+server announced, so for a value whose CRC register stays 0 (all zero bytes) a corrupted
+byte-count field in the end response shortens the value unnoticed. -/
 
 theorem never_returns_different_data_partial (E : Env) (fuel idx sub : Nat) (crcReq : Bool) (v data : Bytes)
     (h : (blockUpload E fuel idx sub crcReq).2 = .ok v)
@@ -248,21 +283,40 @@ theorem never_returns_different_data_partial (E : Env) (fuel idx sub : Nat) (crc
   rw [hgenuine] at this
   exact (Option.some.inj this).symm
 
-/-- conformant server holding 57 zero bytes (9 segments), CRC negotiated, size indicated;
-    the fifth segment (server frame 5) is lost, everything else arrives untouched -/
-def cexEnv : Env :=
-  { cfg := { data := List.replicate 57 0, crcCapable := true, sizeInd := true },
-    chan := (fun n f => if n = 5 then none else some f) }
+/-- conformant server holding the 30 bytes 1 … 30, CRC negotiated; bytes 1–3 of the second segment
+    frame arrive XORed with 01 10 21 (the CRC-16 polynomial x^16+x^12+x^5+1) -/
+def collEnv : Env :=
+  { cfg := { data := List.range' 1 30, crcCapable := true, sizeInd := true },
+    chan := (fun n f => if n = 2 then
+      some (f.take 1 ++ [f.getD 1 0 ^^^ 0x01, f.getD 2 0 ^^^ 0x10, f.getD 3 0 ^^^ 0x21] ++ f.drop 4) else some f) }
 
-/-- **Closed counterexample** to the full statement: the upload returns normally, CRC negotiated,
-    the genuine checksum was read — and the value returned is 29 bytes long instead of 57. -/
+/-- **Closed counterexample** to the full statement (inherent in a 16-bit check): the upload returns
+    normally, CRC negotiated, the genuine checksum was read — and three bytes of the value returned
+    differ from the server's. -/
+theorem crc_collision_counterexample :
+    (blockUpload collEnv 100 0x2000 1 true).2 = .ok (List.range' 1 7 ++ [9, 25, 43] ++ List.range' 11 20) ∧
+    (blockUpload collEnv 100 0x2000 1 true).1.cl.crcSupported = true ∧
+    (blockUpload collEnv 100 0x2000 1 true).1.cl.done = true ∧
+    (blockUpload collEnv 100 0x2000 1 true).1.cl.serverCrc = some (crcHqx collEnv.cfg.data 0) ∧
+    List.range' 1 7 ++ [9, 25, 43] ++ List.range' 11 20 ≠ collEnv.cfg.data := by
+  decide +kernel
+
+/-- conformant server holding 29 zero bytes (5 segments), CRC negotiated, size indicated; nothing is
+    lost; in the end response (server frame 6) one bit of the "unused bytes" field flips (6 → 7) -/
+def cexEnv : Env :=
+  { cfg := { data := List.replicate 29 0, crcCapable := true, sizeInd := true },
+    chan := (fun n f => if n = 6 then some (f.set 0 (f.getD 0 0 ^^^ 4)) else some f) }
+
+/-- **Closed counterexample**, the part a client could avoid: the upload returns normally, CRC
+    negotiated, the genuine checksum was read, the server announced 29 bytes — and the value
+    returned is 28 bytes long. -/
 theorem crc_blind_counterexample :
-    (blockUpload cexEnv 100 0x2000 1 true).2 = .ok (List.replicate 29 0) ∧
+    (blockUpload cexEnv 100 0x2000 1 true).2 = .ok (List.replicate 28 0) ∧
     (blockUpload cexEnv 100 0x2000 1 true).1.cl.crcSupported = true ∧
     (blockUpload cexEnv 100 0x2000 1 true).1.cl.done = true ∧
     (blockUpload cexEnv 100 0x2000 1 true).1.cl.serverCrc = some (crcHqx cexEnv.cfg.data 0) ∧
-    (blockUpload cexEnv 100 0x2000 1 true).1.cl.size = some 57 ∧
-    List.replicate 29 0 ≠ cexEnv.cfg.data := by
+    (blockUpload cexEnv 100 0x2000 1 true).1.cl.size = some 29 ∧
+    List.replicate 28 0 ≠ cexEnv.cfg.data := by
   decide +kernel
 
 /-! ## non-vacuity -/
@@ -275,8 +329,15 @@ example : (blockUpload { cfg := { data := List.range' 1 30, crcCapable := true, 
 /-- a lost first segment of a sub-block is repaired (ackseq 0, the server resends everything) -/
 example : (blockUpload { cfg := { data := List.range' 1 30, crcCapable := true, sizeInd := true }, chan := (fun n f => if n = 1 then none else some f) } 50 0x2000 1 true).2 = .ok (List.range' 1 30) := by decide +kernel
 
-/-- a lost later segment: the client resumes at the wrong segment, the CRC catches it -/
-example : (blockUpload { cfg := { data := List.range' 1 30, crcCapable := true, sizeInd := true }, chan := (fun n f => if n = 2 then none else some f) } 50 0x2000 1 true).2 = .err := by decide +kernel
+/-- a lost later segment is repaired as well, without CRC too (`single_loss_repaired` in a run) -/
+example : (blockUpload { cfg := { data := List.range' 1 30, crcCapable := true, sizeInd := true }, chan := (fun n f => if n = 2 then none else some f) } 50 0x2000 1 true).2 = .ok (List.range' 1 30) ∧
+    (blockUpload { cfg := { data := List.range' 1 30, crcCapable := false, sizeInd := false }, chan := (fun n f => if n = 5 then none else some f) } 50 0x2000 1 false).2 = .ok (List.range' 1 30) := by decide +kernel
+
+/-- several losses, among them a repeated segment: the upload still returns the value, or fails —
+    here the first frame of the repetition is lost too and the client gives up
+    (`loss_never_returns_different_data` is not vacuous on either side) -/
+example : (blockUpload { cfg := { data := List.range' 1 30, crcCapable := false, sizeInd := true }, chan := (fun n f => if n = 2 ∨ n = 4 ∨ n = 7 then none else some f) } 50 0x2000 1 false).2 = .ok (List.range' 1 30) ∧
+    (blockUpload { cfg := { data := List.range' 1 30, crcCapable := false, sizeInd := true }, chan := (fun n f => if n = 2 ∨ n = 6 then none else some f) } 50 0x2000 1 false).2 = .err := by decide +kernel
 
 /-- hypotheses of `crc_guard` / `single_bit_flip_detected` hold in a real run with a flipped bit -/
 example : (blockUpload { cfg := { data := List.range' 1 30, crcCapable := true, sizeInd := true }, chan := (fun n f => if n = 2 then some (f.set 2 (f.getD 2 0 ^^^ 2)) else some f) } 50 0x2000 1 true).2 = .err := by
